@@ -104,8 +104,15 @@ private:
 class interner
 {
 public:
+    bool hash = false; // content-based ids (needed when several processes must agree on ids)
     long id(std::string const& text)
     {
+        if (hash)
+        {
+            std::uint64_t h = 1469598103934665603ULL;
+            for (unsigned char c : text) { h ^= c; h *= 1099511628211ULL; }
+            return (long) ((h ^ (h >> 31)) & 0x3fffffffULL) + 1;
+        }
         std::lock_guard<std::mutex> g(m_);
         auto it = ids_.find(text);
         if (it != ids_.end()) return it->second;
